@@ -439,6 +439,8 @@ def run(ctx: Ctx) -> None:
         # tie of the modelled sub-parsers (q_line_endings / q_nul are theorems about exactly these models)
         from . import miniblock
         miniblock.tie_all(ctx, drv, quick)
+        from . import pipeline
+        pipeline.tie_full(ctx, drv, 2000 if quick else 50000, ref=True)     # MarkdownIt.parse end to end, reference rule included
     finally:
         drv.close()
     ctx.partial += [
